@@ -14,7 +14,27 @@ def make_tree(r, idx):
              b"d/n": Node("fifo", link_to=b"d/m"), b"d/0": Node("slink", 0o777, target=b"x"), b"d/9": Node("slink", link_to=b"d/0"),
              b"e": Node("dir", 0o700), b"e/q": Node("file", 0o600, data=[("rand", 5, 9000)]), b"e/a": Node("file", link_to=b"e/q"), b"e/zz": Node("file", link_to=b"e/q")}
         return t, {"hardlink"}
-    t, feats = gentree.gen_tree(r, bs=4096, max_entries=50, want=("links",) if idx % 3 == 1 else ())
+    if idx % 3 == 1 and idx % 2 == 1:
+        # names that are prefixes of one another, linked, with unrelated entries sorting in between
+        t = {b"": Node("dir", 0o755), b"data": Node("file", 0o644, data=[("bytes", b"D")]), b"data.bak": Node("file", link_to=b"data"),
+             b"data-x": Node("file", 0o600, data=[("bytes", b"between")]), b"data.a": Node("fifo", 0o600),
+             b"lib": Node("dir", 0o755), b"lib64": Node("dir", 0o755), b"lib-x": Node("dir", 0o700), b"lib/f": Node("file", 0o644, data=[("bytes", b"L")]),
+             b"lib64/f": Node("file", link_to=b"lib/f"), b"lib-x/g": Node("file", 0o644, data=[("bytes", b"g")]),
+             b"a": Node("slink", 0o777, target=b"t"), b"ab": Node("slink", link_to=b"a"), b"aa": Node("fifo", 0o644), b"abc": Node("slink", link_to=b"a")}
+        return t, {"hardlink", "prefix-names"}
+    if idx % 3 == 1:
+        # big directories (more than 64 / 128 entries) with hard links spread over the sorted order
+        n = r.choice([70, 100, 130, 200])
+        t = {b"": Node("dir", 0o755), b"big": Node("dir", 0o755)}
+        names = [b"big/e%03d" % i for i in range(n)]
+        for i, nm in enumerate(names):
+            t[nm] = Node("file", 0o644, data=[("bytes", b"%d" % i)])
+        for _ in range(12):
+            a, b = r.sample(range(n), 2)
+            if t[names[a]].link_to is None and t[names[b]].link_to is None and not any(x.link_to == names[b] for x in t.values()):
+                t[names[b]] = Node("file", link_to=names[a])
+        return t, {"hardlink", "big-dir-%d" % n}
+    t, feats = gentree.gen_tree(r, bs=4096, max_entries=50, want=("links",))
     for p, n in t.items():
         if n.uid == 0xFFFFFFFF:
             n.uid = 7
@@ -43,7 +63,8 @@ def run_tree(arg):
                 f.write("glob /sub 0755 3 4 -nohardlinks -keeptime .\n")
             variants += [("glob", ["-F", pf, "-D", root]), ("glob-nohl", ["-F", pf2, "-D", root])]
             norders = 8 if tier == "quick" else 40
-            orders = [(0, 0), (1, 0), (2, 0), (4, 0)] + [(3, core.SEED * 1000 + i) for i in range(norders - 4)]
+            orders = [(0, 0), (1, 0), (2, 0), (4, 0)] + [(3, core.SEED * 1000 + i) for i in range(norders - 4)] + \
+                [(5, k) for k in (1, 63, 64, 65, 127, 128, 129)] + [(6, core.SEED + 1), (6, core.SEED + 40)]
             vsel = variants if tier == "thorough" else [variants[0], variants[idx % len(variants)], variants[(idx + 2) % len(variants)]]
             for vname, vargs in vsel:
                 shas = {}
@@ -89,7 +110,7 @@ def main(tier):
                       "(injected by wrapping readdir under the real tool) x option variants (-k -x, -H, -o, glob lines); all images of a variant must be byte identical; "
                       "distinct = distinct tree feature vectors; the wrapper log proves different orders were delivered")
     build.build("plain")
-    n = 10 if tier == "quick" else 60
+    n = 18 if tier == "quick" else 72
     for oc in core.pmap(run_tree, [(i, tier) for i in range(n)]):
         rep.add(oc)
     rep.extra["trees"] = rep.evaluations
